@@ -673,7 +673,33 @@ func GenFragType(r *rand.Rand, depth int) string {
 		}
 		return "Hash[" + sub() + ", " + sub() + ", " + fragSizeText(r, true) + "]"
 	}
-	switch r.Intn(11) {
+	switch r.Intn(15) {
+	case 11, 12:
+		return fragCallable(r, sub)
+	case 13:
+		switch r.Intn(5) {
+		case 0:
+			return "Runtime[" + sq([]string{"ruby", "go", "x y"}[r.Intn(3)]) + "]"
+		case 1:
+			return "Runtime['ruby', " + sq(fragKeyName0(r)) + "]"
+		case 2:
+			return "Runtime['ruby', " + sq(fragKeyName0(r)) + ", Regexp[" + fragRegexps[r.Intn(len(fragRegexps))] + "]]"
+		case 3:
+			return "Runtime['jvm', 'n', Regexp]"
+		}
+		return "Runtime"
+	case 14:
+		switch r.Intn(5) {
+		case 0:
+			return "TypeReference[" + sq(fragString(r)) + "]"
+		case 1:
+			return []string{"Foo", "My::Thing", "Catalogentry", "A::B", "Foo::Bar"}[r.Intn(5)]
+		case 2:
+			return []string{"Foo", "My::Thing", "Typereference"}[r.Intn(3)] + "[" + sq(fragString(r)) + "]"
+		case 3:
+			return []string{"Notundef", "RegExp", "Richdata", "Scalardata", "Semver", "Semverrange", "SemverRange", "TimeSpan", "TimeStamp", "Typereference", "Typeset", "Uri"}[r.Intn(12)]
+		}
+		return "TypeReference"
 	case 9, 10:
 		i := r.Intn(len(FloatBoundTexts))
 		j := i + r.Intn(len(FloatBoundTexts)-i)
@@ -748,6 +774,59 @@ func fragKeyName(r *rand.Rand) string {
 	}
 	return sq(s)
 }
+
+func fragKeyName0(r *rand.Rand) string {
+	s := fragString(r)
+	if s == "" {
+		s = "n"
+	}
+	return s
+}
+
+// fragCallable draws a Callable in the forms that print invertibly: parameter types (no Unit, no leading Tuple outside
+// the array form), an optional size, an optional block (Callable / Optional[Callable]), an optional return type
+func fragCallable(r *rand.Rand, sub func() string) string {
+	n := r.Intn(3)
+	ps := []string{}
+	for i := 0; i < n; i++ {
+		t := sub()
+		if t == "Unit" || strings.HasPrefix(t, "Tuple") || strings.HasPrefix(t, "Callable") || strings.HasPrefix(t, "Optional[Callable") || t == "Optional" {
+			t = "String"
+		}
+		ps = append(ps, t)
+	}
+	switch r.Intn(4) {
+	case 0: // size
+		lo := int64(r.Intn(3))
+		switch r.Intn(3) {
+		case 0:
+			ps = append(ps, strconv.FormatInt(lo, 10), strconv.FormatInt(lo+int64(r.Intn(3)), 10))
+		case 1:
+			ps = append(ps, strconv.FormatInt(lo, 10), "default")
+		default:
+			if n > 0 && lo <= int64(n) {
+				ps = append(ps, strconv.FormatInt(lo, 10)) // one number: the minimum, the maximum is the number of types
+			}
+		}
+	}
+	switch r.Intn(4) {
+	case 0:
+		ps = append(ps, "Callable")
+	case 1:
+		ps = append(ps, "Optional[Callable["+strings.Join([]string{"String", "0, 0", "[Integer], String"}[r.Intn(3):][:1], "")+"]]")
+	}
+	body := strings.Join(ps, ", ")
+	if r.Intn(3) == 0 {
+		return "Callable[[" + body + "], " + sub() + "]"
+	}
+	if body == "" {
+		return "Callable"
+	}
+	return "Callable[" + body + "]"
+}
+
+// CallableLeaves: the argument leaves the creator of Callable distinguishes
+var CallableLeaves = []string{"String", "1", "0", "default", "Callable", "Optional[Callable]", "Tuple[String]", "Unit", "Integer[1, 2]"}
 
 // fragStruct draws a Struct type expression: every key form the creator reads (bare name, quoted name, Optional[n],
 // NotUndef[n], String[n]) over value types that accept and that refuse undef, in the surface forms of the parameter list
